@@ -421,6 +421,119 @@ def slim(case):
             "program": {m: src for m, src in M.render(case["prog"]).items() if m.startswith(M.PKG + "/m")}}
 
 
+# ---- the same path kept more than once in one evaluation ---------------------------------------------------------------
+
+DUP_SRC = """import dds
+import vlog
+
+
+def a({pa}):
+    vlog.rec('a')
+    return ('a', {ra})
+
+
+def b({pb}):
+    vlog.rec('b')
+    return ('b', {rb})
+
+
+def second():
+    vlog.rec('second')
+    r1 = int('1')
+    r2 = int('2')
+    return dds.keep('/dup/q', {second})
+
+
+{deco}def wrapped():
+    vlog.rec('wrapped')
+    return second()
+
+
+def root():
+    vlog.rec('root')
+    r1 = int('1')
+    r2 = int('2')
+    x = dds.keep('/dup/q', {first})
+    y = {call_second}
+    return (x, y)
+
+
+def later():
+    r1 = int('1')
+    r2 = int('2')
+    return (dds.keep('/dup/other1', {first}), dds.keep('/dup/other2', {second}))
+"""
+
+DUP_PAIRS = {
+    # first keep, second keep, parameters / results of a and b, plain results
+    "two_functions": ("a", "b", "", "0", "", "0", (("a", 0), ("b", 0))),
+    "same_function_other_argument": ("a, 1", "a, 2", "x", "x", "", "0", (("a", 1), ("a", 2))),
+    "same_function_other_keyword": ("a, x=1", "a, x=2", "x", "x", "", "0", (("a", 1), ("a", 2))),
+    "identical": ("a", "a", "", "0", "", "0", (("a", 0), ("a", 0))),
+    "same_function_runtime_arguments": ("a, r1", "a, r2", "x", "x", "", "0", (("a", 1), ("a", 2))),
+}
+
+
+def dup_strategy():
+    from hypothesis import strategies as st
+
+    kinds = sorted(k for k in DUP_PAIRS if not (k == "same_function_runtime_arguments" and "same-path-runtime-arguments" in common.open_features(ID)))
+    return st.fixed_dictionaries({
+        "dup": st.sampled_from(kinds),
+        "where": st.sampled_from(["same_body", "helper", "kept_function"]),
+        "store": st.sampled_from([["memory", None], ["local", None], ["local-lru", 2]]),
+    })
+
+
+def check_duplicate_path(case, ev=None, scratch=None):
+    """One path kept twice in one evaluation (by two functions, or by one function with two arguments): dds either refuses the
+    evaluation with a DDS error before anything runs, or every keep returns what plain execution returns - and in both cases
+    nothing wrong is left in the store for later evaluations."""
+    from ..harness import proc
+    import os
+
+    own = scratch is None
+    scratch = scratch or common.Scratch("vf-c01")
+    first, second, pa, ra, pb, rb, plain = DUP_PAIRS[case["dup"]]
+    where = case["where"]
+    src = DUP_SRC.format(pa=pa, ra=ra, pb=pb, rb=rb, first=first, second=second,
+                         deco="@dds.data_function('/dup/w')\n" if where == "kept_function" else "",
+                         call_second=f"dds.keep('/dup/q', {second})" if where == "same_body" else ("second()" if where == "helper" else "wrapped()"))
+    root_dir, store_dir = scratch.sub(), scratch.sub()
+    for rel, content in {"pk/__init__.py": "", "pk/m0.py": src}.items():
+        pth = os.path.join(root_dir, rel)
+        os.makedirs(os.path.dirname(pth), exist_ok=True)
+        open(pth, "w").write(content)
+    tag = f"[one path kept twice: {case['dup']} / second keep in {where} / {case['store'][0]}]"
+    w = proc.Worker()
+    try:
+        w.call("init", root=root_dir, accepted=["pk"], store={"kind": case["store"][0], "dir": store_dir, "cache": case["store"][1]})
+        outcome = None
+        for rnd in (0, 1):
+            r = w.call("eval", module="pk.m0", func="root", style="eval")
+            if r["exc"] is not None:
+                if not r["exc"]["is_dds"]:
+                    raise Violation(f"{tag} evaluation raised {r['exc']['type']}: {r['exc']['msg'][:200]} (neither a DDS error nor the plain result)", case)
+                if r["log"] or r.get("stored") or r.get("synced"):
+                    raise Violation(f"{tag} the evaluation was refused only after user code ran or the store was written: log={r['log']} stored={len(r.get('stored', []))}", case)
+                outcome = "refused"
+            else:
+                if tuple(r["value"]) != plain:
+                    raise Violation(f"{tag} evaluation {rnd} returned {r['value']!r} but plain execution gives {plain!r}", case)
+                outcome = "evaluated"
+        r = w.call("eval", module="pk.m0", func="later", style="eval")
+        if r["exc"] is not None:
+            raise Violation(f"{tag} a later evaluation keeping the two results under separate paths raised {r['exc']['type']}: {r['exc']['msg'][:200]}", case)
+        if tuple(r["value"]) != plain:
+            raise Violation(f"{tag} after the evaluation was {outcome}, keeping the two results under separate paths returns {r['value']!r}, plain execution gives {plain!r}", case)
+        if ev is not None:
+            ev.case(case, case["dup"] != "identical", features=["same-path-kept-twice", "dup:" + case["dup"], "dup-outcome:" + outcome])
+    finally:
+        w.close()
+        if own:
+            scratch.clean()
+
+
 def gen_opts():
     return {"exclude": common.open_features(ID), "loads": False, "nested_args": True}
 
@@ -441,6 +554,8 @@ def shard(idx, n, tier, seed, count):
 
     try:
         v = common.hyp_drive(history_strategy(opts), check, seed * 1000 + 100 + idx, count, ev)
+        if v is None and idx % 4 == 0:
+            v = common.hyp_drive(dup_strategy(), lambda c: check_duplicate_path(c, ev, scratch), seed * 1000 + 150 + idx, max(3, count // 8), ev)
     finally:
         scratch.clean()
     for t in opts["exclude"]:
@@ -454,4 +569,7 @@ def run(tier, seed, scale=1.0):
 
 
 def replay(case):
-    check_case(case, stub_check=True)
+    if "dup" in case:
+        check_duplicate_path(case)
+    else:
+        check_case(case, stub_check=True)
